@@ -205,10 +205,11 @@ def check (spec0):
     unmatched = 0
     for q in pts:
         best = None
-        for j in rest:
+        if rest:
+            # nearest remaining pulse (two expected positions can lie within the tolerance of each other)
+            j = min (rest, key = lambda j: np.linalg.norm (have [j] - q))
             if np.linalg.norm (have [j] - q) <= 0.6 * tol + 1e-9 * np.linalg.norm (q):
                 best = j
-                break
         if best is None:
             unmatched += 1
         else:
